@@ -536,7 +536,9 @@ partial def stepCase (st : St) (v : Verdict) (i : Nat) (opText obs : String) : S
         let v := if labelled.any (fun r => !r.specific.isEmpty) then v.addTag "hotspot-override" else v
         let v := if labelled.any (fun r => r.maxCap > 0) then v.addTag "hotspot-small-capacity" else v
         -- the isolated-reference Spec presumes no eviction and a single load
-        let sp := if !isRe && labelled.all (fun r => r.maxCap == 0) then { sp with hs := World.update sp.hs res labelled }
+        -- (a capacity of 20000 or more is as good as none for the handful of values a case uses - the one case that opens more than
+        -- 20000 values stays below its rule's capacity)
+        let sp := if !isRe && labelled.all (fun r => r.maxCap == 0 || r.maxCap ≥ 20000) then { sp with hs := World.update sp.hs res labelled }
           else { sp with hs := sp.hs.filter (fun p => p.1 != res) }
         ({ st with w := w', sh := sh', sp := { sp with other := res :: sp.other } }, v.addTag "hotspot-rules")
     | _, _ => bad "bad-op"
